@@ -45,7 +45,6 @@ Variable spans : list Z.
 Variables csz N : Z.
 Hypothesis Hrange : spans_in_range spans (len strs).
 Hypothesis Hcsz : 1 <= csz.
-Hypothesis HN : 0 <= N.
 Hypothesis Hfits : fits N (concat_spec spans strs).
 
 Let ents := concat_spec spans strs.
